@@ -308,6 +308,41 @@ def r8_generator_visit(run, F):
     run.ob("R8-GENERATOR-VISITS", "declare lowers the constant initialiser", ok, F.where(d), "generator::declare must generate the value of a constant")
 
 
+RESOLVED_TYPE_FIELD = {
+    # variant -> field (or fixed type / delegate) that IS the type of the expression's value; confirmed against resolver.rs,
+    # which fills these fields: the *result* type, never the operand's
+    "Binary": "value_type", "Unary": "value_type", "SignedIntegerLiteral": "value_type", "BitIntegerLiteral": "value_type",
+    "Structural": "structural_type", "Deref": "deref_type", "Autocoerce": "coerced_type", "BitCast": "coerced_type",
+    "PrimitiveCast": "coerced_type", "FunctionCall": "return_type",
+    "LengthOfArray": "ValueType::Usize", "SizeOf": "ValueType::Usize",
+}
+
+
+def r9_resolved_value_type(run, F):
+    """The type the generator's formatting code asks a resolved expression for (print!/format! choose the printf specifier and
+    the widening from it) is the type of the *value*: for a cast the target type, not the operand's."""
+    b = F.body("<alpha::resolved::Expression as alpha::resolved::Typed>::value_type")
+    m = hirq.find_match(b, min_arms=10)
+    for a in m["arms"]:
+        v = hirq.pat_key(a["pat"]).split("::")[-1]
+        want = RESOLVED_TYPE_FIELD.get(v)
+        if want is None:
+            continue
+        body = hirq.unwrap_trivial(a["body"])
+        if want.startswith("ValueType::"):
+            got = [hirq.short(p) for p, _ in hirq.constructs(body)]
+            ok = got == [want]
+            desc = str(got)
+        else:
+            binds = {nm: lid for nm, lid, _ in hirq.pat_bindings(a["pat"])}
+            used = [x.get("res") for x in walk(body) if x.get("k") == "Path" and x.get("rk") == "Local"]
+            ok = used == [want] and want in binds and body.get("k") == "MethodCall" and body.get("name") == "clone"
+            desc = "returns %s" % used
+        run.ob("R9-RESOLVED-VALUE-TYPE", v, ok, F.where(b, a),
+               "resolved::Expression::%s::value_type() must be its `%s` (%s)" % (v, want, desc))
+    run.floor("R9-RESOLVED-VALUE-TYPE", 12)
+
+
 def check(run):
     F = run.facts("B")
     r1_binary(run, F)
@@ -318,6 +353,7 @@ def check(run):
     r6_lowering(run, F)
     r7_member_index(run, F)
     r8_generator_visit(run, F)
+    r9_resolved_value_type(run, F)
     # integer literals are materialised with the sign/zero extension their type prescribes (shared with C09.R6)
     from props import c09, c03
     c09.r6_generator(run, F)
